@@ -364,6 +364,14 @@ func (e *ReverseTranslateError) Unwrap() error {
 
 // ReverseTranslate calls each Mangler's Unmangle method in reverse order.
 func (t *Transformer) ReverseTranslate(v reflect.Value) (reflect.Value, error) {
+	// Sources and decoders may hand back a pointer to the translated struct
+	// (dials itself accepts both forms), so dereference it first.
+	for v.Kind() == reflect.Ptr {
+		if v.IsNil() {
+			return reflect.Value{}, fmt.Errorf("cannot reverse-translate a nil %s", v.Type())
+		}
+		v = v.Elem()
+	}
 	// iterate through manglers in reverse order passing the value of the struct
 	// field paired with its reflect.StructField as a FieldValueTuple
 
